@@ -33,8 +33,8 @@ PROPS = {
               "altext, cat16, extremes, runs, ...), small images drawn sample by sample. Non-trivial: >= 2 distinct sample values and "
               "width*height >= 2. Distinct = 64-bit hash of the case descriptor. Labels dht-cat16 / dht-len16 / stuffed are read from the emitted stream."),
         assumptions=COMMON_ASSUME,
-        quick=dict(shards=16, checks=1500, extra=["TestQuota", "TestExhaustiveDiff", dict(run="TestExhaustive", shards=4)], timeout=600),
-        thorough=dict(shards=16, checks=25000, extra=["TestQuota", "TestExhaustiveDiff", dict(run="TestExhaustive", shards=16)], timeout=3000),
+        quick=dict(shards=16, checks=1500, extra=["TestQuota", "TestExhaustiveDiff", dict(run="TestExhaustive", shards=4), dict(run="TestBig", shards=8)], timeout=600),
+        thorough=dict(shards=16, checks=25000, extra=["TestQuota", "TestExhaustiveDiff", dict(run="TestExhaustive", shards=16), dict(run="TestBig", shards=8)], timeout=3000),
     ),
     "C13": dict(
         pkg="c13",
@@ -45,8 +45,8 @@ PROPS = {
               "decoder) with drawn predictor, per-component Td in 0..3, table kinds std/stddesc/opt/rand, APPn/COM segments, DHT placement, component ids. "
               "Non-trivial: image has >= 2 rows, >= 2 columns and >= 2 distinct values (edge rules exercised). Distinct = hash of the case descriptor."),
         assumptions=COMMON_ASSUME + ["harness/ref/t81 implements T.81 Annex H correctly (checked by its own round-trip self-test and by agreement with the library on predictor 1)"],
-        quick=dict(shards=16, checks=1200, extra=["TestQuota"], timeout=600),
-        thorough=dict(shards=16, checks=25000, extra=["TestQuota"], timeout=3000),
+        quick=dict(shards=16, checks=1200, extra=["TestQuota", dict(run="TestBig", shards=8)], timeout=600),
+        thorough=dict(shards=16, checks=25000, extra=["TestQuota", dict(run="TestBig", shards=8)], timeout=3000),
     ),
     "C03": dict(
         pkg="c03",
@@ -56,8 +56,8 @@ PROPS = {
         rule=("rapid-generated images: geometry classes (tiny, block edges, strips), components {1,3}, P 2..16, content class; small images literal. "
               "Non-trivial: two equal horizontal neighbours (run mode reachable) or a neighbour jump >= 2^(P-1) (modulo-RANGE wrap exercised). Distinct = hash of the case."),
         assumptions=COMMON_ASSUME,
-        quick=dict(shards=16, checks=1200, extra=["TestQuota", dict(run="TestExhaustive", shards=4), dict(run="TestFlat", shards=8)], timeout=600),
-        thorough=dict(shards=16, checks=25000, extra=["TestQuota", dict(run="TestExhaustive", shards=16), dict(run="TestFlat", shards=16)], timeout=3000),
+        quick=dict(shards=16, checks=1200, extra=["TestQuota", dict(run="TestExhaustive", shards=4), dict(run="TestFlat", shards=8), dict(run="TestBig", shards=8)], timeout=600),
+        thorough=dict(shards=16, checks=25000, extra=["TestQuota", dict(run="TestExhaustive", shards=16), dict(run="TestFlat", shards=16), dict(run="TestBig", shards=8)], timeout=3000),
     ),
     "C07": dict(
         pkg="c07",
@@ -67,8 +67,8 @@ PROPS = {
         rule=("rapid-generated (image, NEAR) with P 2..16, NEAR in 0..min(255,MAXVAL/2); sweep of all 2250 (P,NEAR) pairs. Non-trivial: NEAR = 0, or NEAR >= 1 and at least one "
               "decoded sample differs from its source (the quantiser acted). Distinct = hash of the case."),
         assumptions=COMMON_ASSUME,
-        quick=dict(shards=16, checks=1200, extra=["TestQuota", dict(run="TestNearSweep", shards=4)], timeout=600),
-        thorough=dict(shards=16, checks=25000, extra=["TestQuota", dict(run="TestNearSweep", shards=16)], timeout=3000),
+        quick=dict(shards=16, checks=1200, extra=["TestQuota", dict(run="TestNearSweep", shards=4), dict(run="TestBig", shards=8)], timeout=600),
+        thorough=dict(shards=16, checks=25000, extra=["TestQuota", dict(run="TestNearSweep", shards=16), dict(run="TestBig", shards=8)], timeout=3000),
     ),
     "C14": dict(
         pkg="c14",
@@ -78,8 +78,8 @@ PROPS = {
         rule=("rapid-generated (image, package/NEAR) as in C03/C07; sweep over all 2250 (P,NEAR) pairs; H.3 vector. Non-trivial: image has two equal horizontal neighbours or a jump >= 2^(P-1). "
               "Distinct = hash of the case."),
         assumptions=COMMON_ASSUME + ["harness/ref/t87 implements the T.87 decoding procedure correctly (H.3 vector self-test on every run)"],
-        quick=dict(shards=16, checks=1000, extra=["TestQuota", "TestH3", dict(run="TestNearSweep", shards=4)], timeout=600),
-        thorough=dict(shards=16, checks=20000, extra=["TestQuota", "TestH3", dict(run="TestNearSweep", shards=16)], timeout=3000),
+        quick=dict(shards=16, checks=1000, extra=["TestQuota", "TestH3", dict(run="TestNearSweep", shards=4), dict(run="TestBig", shards=8)], timeout=600),
+        thorough=dict(shards=16, checks=20000, extra=["TestQuota", "TestH3", dict(run="TestNearSweep", shards=16), dict(run="TestBig", shards=8)], timeout=3000),
     ),
     "C04": dict(
         pkg="c04",
@@ -89,8 +89,8 @@ PROPS = {
         rule=("rapid-generated (image, reversible single-tile configuration). Non-trivial: >= 2 distinct sample values and layers*(levels+1)*components >= 2 packets. "
               "Labels empty-subband / image<codeblock are computed from the drawn geometry, body-contains-FF from the emitted tile-part bodies via the independent walker. Distinct = hash of the case."),
         assumptions=COMMON_ASSUME,
-        quick=dict(shards=16, checks=1200, extra=["TestQuota"], timeout=900),
-        thorough=dict(shards=16, checks=3000, extra=["TestQuota", dict(run="TestGrid", shards=16)], timeout=3400),
+        quick=dict(shards=16, checks=1200, extra=["TestQuota", dict(run="TestBig", shards=8)], timeout=900),
+        thorough=dict(shards=16, checks=3000, extra=["TestQuota", dict(run="TestGrid", shards=16), dict(run="TestBig", shards=8)], timeout=3400),
     ),
     "C05": dict(
         pkg="c05",
@@ -100,8 +100,8 @@ PROPS = {
         rule=("rapid-generated (frames, FrameInfo, parameter object). Non-trivial: a rate target is in effect (Rate>0 or TargetRatio>0, so the PCRD path runs) and the image has >= 2 distinct values. "
               "Distinct = hash of the case."),
         assumptions=COMMON_ASSUME,
-        quick=dict(shards=16, checks=1000, extra=["TestQuota"], timeout=900),
-        thorough=dict(shards=16, checks=2500, extra=["TestQuota", dict(run="TestGrid", shards=16)], timeout=3400),
+        quick=dict(shards=16, checks=1000, extra=["TestQuota", dict(run="TestBig", shards=8)], timeout=900),
+        thorough=dict(shards=16, checks=2500, extra=["TestQuota", dict(run="TestGrid", shards=16), dict(run="TestBig", shards=8)], timeout=3400),
     ),
     "C19": dict(
         pkg="c19",
@@ -143,8 +143,8 @@ PROPS = {
         level_note="Round trip through the registry codecs .201/.202; fixtures are the finite set in test-data/htj2k/interop. Trusts the Go runtime.",
         rule=("rapid-generated (frame, FrameInfo, parameters). Non-trivial: at least one non-zero sample and >= 4 pixels (an HT code-block with a non-zero sample and >= 2 quads). Distinct = hash of the case."),
         assumptions=COMMON_ASSUME,
-        quick=dict(shards=16, checks=250, extra=["TestQuota", "TestFixtures"], timeout=900),
-        thorough=dict(shards=16, checks=2000, extra=["TestQuota", "TestFixtures", dict(run="TestGrid", shards=16)], timeout=3400),
+        quick=dict(shards=16, checks=250, extra=["TestQuota", "TestFixtures", dict(run="TestBig", shards=8)], timeout=900),
+        thorough=dict(shards=16, checks=2000, extra=["TestQuota", "TestFixtures", dict(run="TestGrid", shards=16), dict(run="TestBig", shards=8)], timeout=3400),
     ),
     "C11": dict(
         pkg="c11",
@@ -163,8 +163,8 @@ PROPS = {
         level_note="Trusts image/jpeg as the independent implementation and ref/dctenc (every reference stream is first accepted by image/jpeg, else the run is a harness fault).",
         rule=("rapid-generated (image, direction, codec, quality, stream layout). Non-trivial: width or height not a multiple of the MCU size, or >= 2 MCUs. Distinct = hash of the case."),
         assumptions=COMMON_ASSUME + ["Go's image/jpeg is a conformant baseline decoder/encoder"],
-        quick=dict(shards=16, checks=300, extra=[dict(run="TestSizes", shards=4)], timeout=900),
-        thorough=dict(shards=16, checks=6000, extra=[dict(run="TestSizes", shards=16)], timeout=3400),
+        quick=dict(shards=16, checks=300, extra=[dict(run="TestSizes", shards=4), dict(run="TestBig", shards=8)], timeout=900),
+        thorough=dict(shards=16, checks=6000, extra=[dict(run="TestSizes", shards=16), dict(run="TestBig", shards=8)], timeout=3400),
     ),
     "C16": dict(
         pkg="c16",
@@ -199,12 +199,12 @@ PROPS = {
     "C18": dict(
         pkg="c18", race=True,
         technique="property-based testing of generated concurrent workloads (rapid) under the Go race detector, each job compared with the same job run alone",
-        level_text="Exploration: generated job lists (2-64 Encode/Decode calls concentrated on 1-3 of the 14 registered codecs or on distinct low-level encoder/decoder objects; parameters nil / private / one shared GetDefaultParameters() object; drawn Gosched perturbations; GOMAXPROCS 1/2/4/16) run concurrently in a -race build; any race report whose stacks touch /repo and any result different from the solo run is a violation.",
+        level_text="Exploration: generated job lists (2-64 Encode/Decode calls concentrated on 1-3 of the 14 registered codecs or on distinct low-level encoder/decoder objects; parameters nil / private / one shared GetDefaultParameters() object; drawn Gosched perturbations; GOMAXPROCS 1/2/4/16) run concurrently in a -race build; any race report whose stacks touch /repo and any result different from the solo run (made with a pristine parameters object) is a violation; shared-parameter calls are repeated sequentially afterwards; frame pools may mix sizes; TestColdStart gives each of the 17 targets a process of its own whose first calls are 8 concurrent encodes and then 8 concurrent decodes (lazily built tables).",
         level_note="Schedules are sampled, not controlled: the race detector only sees interleavings that happen. The statement's static obligation (no non-init write to package variables, no receiver-field writes in Codec methods) is a structural argument outside this technique family and is not decided here.",
         rule=("rapid-generated concurrent workloads. Non-trivial: at least two jobs on the same codec instance measurably overlapped in time (start/end stamps). Distinct = hash of the case."),
         assumptions=COMMON_ASSUME + ["the Go race detector reports every data race among the executed, conflicting accesses"],
-        quick=dict(shards=8, checks=25, extra=["TestSharedParams"], timeout=900, parallel=8, gomaxprocs=16),
-        thorough=dict(shards=8, checks=250, extra=["TestSharedParams"], timeout=3400, parallel=8, gomaxprocs=16),
+        quick=dict(shards=8, checks=25, extra=["TestSharedParams", dict(run="TestColdStart", shards=17)], timeout=900, parallel=8, gomaxprocs=16),
+        thorough=dict(shards=8, checks=250, extra=["TestSharedParams", dict(run="TestColdStart", shards=17)], timeout=3400, parallel=8, gomaxprocs=16),
     ),
     "C08": dict(
         pkg="c0809", env={"VERIF_PROP": "C08"}, fuzz=dict(target="FuzzDecode"),
@@ -214,8 +214,8 @@ PROPS = {
         level_note="A recovered Go panic or a fatal stack overflow is a violation; allocation aborts and hangs are C09's subject and only counted. Trusts the worker protocol and the Go runtime.",
         rule=("rapid-generated and enumerated (entry point, byte string[, FrameInfo]). Non-trivial: the input still starts with the family's start marker (it reaches real parsing) and differs from its valid parent. Distinct = hash of the case."),
         assumptions=COMMON_ASSUME,
-        quick=dict(shards=16, checks=1500, extra=["TestValid", dict(run="TestTruncations", shards=8), dict(run="TestHeaderBytes", shards=8), dict(run="TestRLEGrammar", shards=4)], timeout=900, parallel=16),
-        thorough=dict(shards=16, checks=60000, extra=["TestValid", dict(run="TestTruncations", shards=8), dict(run="TestHeaderBytes", shards=16), dict(run="TestRLEGrammar", shards=8)], timeout=3400, fuzztime=600),
+        quick=dict(shards=16, checks=1500, extra=["TestValid", dict(run="TestTruncations", shards=8), dict(run="TestHeaderBytes", shards=8), dict(run="TestRLEGrammar", shards=4), dict(run="TestHeaders", shards=16)], timeout=900, parallel=16),
+        thorough=dict(shards=16, checks=60000, extra=["TestValid", dict(run="TestTruncations", shards=8), dict(run="TestHeaderBytes", shards=16), dict(run="TestRLEGrammar", shards=8), dict(run="TestHeaders", shards=16)], timeout=3400, fuzztime=600),
     ),
     "C09": dict(
         pkg="c0809", env={"VERIF_PROP": "C09"},
@@ -225,7 +225,7 @@ PROPS = {
         level_note="Peak heap is the sampled live-heap growth (1 ms sampler, GC percent 10) and is only consulted when the cumulative allocation already exceeds the budget; hangs that need deep un-generated state stay unseen.",
         rule=("rapid-generated and enumerated (entry point, byte string[, FrameInfo]). Non-trivial: the input starts with the family's start marker, differs from its valid parent and the pre-parser found a frame header (the budget formula was exercised). Distinct = hash of the case."),
         assumptions=COMMON_ASSUME + ["getrusage(RUSAGE_THREAD) of the locked decoding thread is a lower bound of the call's wall time"],
-        quick=dict(shards=16, checks=1500, extra=["TestValid", dict(run="TestTruncations", shards=8), dict(run="TestHeaderBytes", shards=8), dict(run="TestRLEGrammar", shards=4)], timeout=900, parallel=16),
-        thorough=dict(shards=16, checks=60000, extra=["TestValid", dict(run="TestTruncations", shards=8), dict(run="TestHeaderBytes", shards=16), dict(run="TestRLEGrammar", shards=8)], timeout=3400),
+        quick=dict(shards=16, checks=1500, extra=["TestValid", dict(run="TestTruncations", shards=8), dict(run="TestHeaderBytes", shards=8), dict(run="TestRLEGrammar", shards=4), dict(run="TestHeaders", shards=16)], timeout=900, parallel=16),
+        thorough=dict(shards=16, checks=60000, extra=["TestValid", dict(run="TestTruncations", shards=8), dict(run="TestHeaderBytes", shards=16), dict(run="TestRLEGrammar", shards=8), dict(run="TestHeaders", shards=16)], timeout=3400),
     ),
 }
